@@ -146,7 +146,7 @@ func (c config) ttlmcAlphabet() []Op {
 				Op{Kind: "plock", T: t2.id, Start: s2, Keys: one, Primary: k, ForUpdate: fu2, TTL: 5},
 				Op{Kind: "prewrite", T: t2.id, Start: s2, Keys: one, Primary: k, Mode: "opt", MutOp: "put", Value: t2.value, TTL: 5, MinCommit: s2 + 1},
 				Op{Kind: "prewrite", T: t2.id, Start: s2, Keys: one, Primary: k, Mode: "pess", MutOp: "put", Value: t2.value, TTL: 5, ForUpdate: fu2},
-				Op{Kind: "status", T: t2.id, Start: s2, Keys: one, Caller: 31 * U, Current: 21 * U, RollbackIfNE: true},
+				Op{Kind: "status", T: t2.id, Start: s2, Keys: one, Caller: 45 * U, Current: 21 * U, RollbackIfNE: true},
 				Op{Kind: "commit", T: t2.id, Start: s2, Keys: one, Commit: t2.commits[0] * U},
 				Op{Kind: "rollback", T: t2.id, Start: s2, Keys: one})
 		}
